@@ -152,6 +152,10 @@ class OpsMixin:
         enabled = fam in self.fam or (fam == "O9" and "O16" in self.fam)
         if fam == "O9" and "O16" in self.fam and "O9" not in self.fam:
             prop = "C16"
+        if expect.rule == "join_same_origin" and "O16" in self.fam and "O14" not in self.fam:
+            # alias(keep_col_refs=True) / collect() / references kept: not an independent table
+            enabled, prop = True, "C16"
+            self.note("same_origin_join_rejected")
         self.stats["rejections_expected"] += 1
         self.note("reject:" + expect.rule)
         for rep, res in results.items():
@@ -160,7 +164,7 @@ class OpsMixin:
                 if enabled:
                     self.violate(
                         prop,
-                        "O9.3" if fam == "O9" else "O14.1",
+                        "O9.3" if fam == "O9" else "O16.3" if prop == "C16" else "O14.1",
                         f"ill-formed `{step['op']}` ({expect.rule}) was accepted on {rep}",
                         rule=expect.rule,
                         op=step["op"],
@@ -174,7 +178,7 @@ class OpsMixin:
                 if enabled:
                     self.violate(
                         prop,
-                        "O9.3" if fam == "O9" else "O14.1",
+                        "O9.3" if fam == "O9" else "O16.3" if prop == "C16" else "O14.1",
                         f"ill-formed `{step['op']}` ({expect.rule}) raised {res[1]} on {rep}, documented: {'/'.join(expect.classes)}: {str(res[2])[:160]}",
                         rule=expect.rule,
                         op=step["op"],
